@@ -26,6 +26,8 @@ fn descs() -> Vec<FnDesc> {
         FnDesc { name: "nb", cacheable: false, kind: Kind::V, suspend: 0 },
         FnDesc { name: "cr", cacheable: true, kind: Kind::ER, suspend: 0 },
         FnDesc { name: "nr", cacheable: false, kind: Kind::ER, suspend: 0 },
+        // does not override cacheable(): the default must mean "cacheable"
+        FnDesc { name: "dcx", cacheable: true, kind: Kind::Tag, suspend: 0 },
     ]
 }
 
@@ -207,7 +209,7 @@ fn exhaustive(ctx: &mut Ctx, max_len: usize) {
 fn random(ctx: &mut Ctx, n: usize) {
     let mut rng: Rng = ctx.rng.clone();
     let a = args();
-    let fns = ["ca", "cb", "na", "cn", "ce", "nb", "cr", "nr"];
+    let fns = ["ca", "cb", "na", "cn", "ce", "nb", "cr", "nr", "dcx"];
     for _ in 0..n {
         let len = 1 + rng.below(12);
         // few distinct arguments per history so that repeats are common
